@@ -392,6 +392,7 @@ func mkRope(parts []value) value {
 // lazyOK lists intrinsics that accept lazily rendered strings as arguments without inspecting them.
 var lazyOK = map[string]bool{
 	"fmt.Sprintf": true, "fmt.Sprint": true, "fmt.Sprintln": true, "fmt.Errorf": true,
-	"cosmossdk.io/errors.Wrapf": true,
+	"cosmossdk.io/errors.Wrapf":      true,
 	"(*strings.Builder).WriteString": true, "(*strings.Builder).String": true,
+	"(*math/big.Int).SetString": true,
 }
